@@ -36,4 +36,77 @@ package info
 
 //@ func (ListLinkInfo).Evaluate(pagePattern, ascendingNumbers, firstPageURL)
 //@   requires linksOK(allLinkInfo, ascendingNumbers) && numbersOK(ascendingNumbers) && len(ascendingNumbers) >= 2 && pagePattern != nil
+//@   requires patternOK(pagePattern)
 //@   loop 0 invariant linksOK(allLinkInfo, ascendingNumbers) && numbersOK(ascendingNumbers) && freshslice(allPageInfo)
+//@   loop 0 invariant len(allPageInfo) == ITER && forall(k, 0 <= k && k < len(allPageInfo), allPageInfo[k] != nil)
+//@   ensures result == nil || (numbersOK(result.AllPageInfo) && len(result.AllPageInfo) >= 2)
+
+// C01: the adjacency groups (groupsOK / groupsLive in /verif/specs/pageinfo.ghost). Every mutator
+// re-establishes the invariant it needs, so that calls can be chained.
+
+//@ func (*MonotonicPageInfoGroups).AddGroup()
+//@   requires groupsOK(mig)
+//@   assigns info.MonotonicPageInfoGroups.*, info.PageInfoGroup.*
+//@   fresh_assigns info.PageInfoGroup.*, info.PageInfo.*
+//@   assigns_rows mig.Groups, mig.Groups[len(mig.Groups)-1].List
+//@   ensures freshslice(mig.Groups) || samerow(mig.Groups, old(mig.Groups))
+//@   ensures implies(len(mig.Groups) > 0, freshslice(mig.Groups[len(mig.Groups)-1].List) || (old(len(mig.Groups)) > 0 && samerow(mig.Groups[len(mig.Groups)-1].List, old(mig.Groups[len(mig.Groups)-1].List))))
+//@   ensures groupsLive(mig)
+
+//@ func (*MonotonicPageInfoGroups).AddPageInfo(pageInfo)
+//@   requires groupsLive(mig) && pageInfo != nil
+//@   assigns info.MonotonicPageInfoGroups.*, info.PageInfoGroup.*
+//@   fresh_assigns info.PageInfoGroup.*, info.PageInfo.*
+//@   assigns_rows mig.Groups, mig.Groups[len(mig.Groups)-1].List
+//@   ensures freshslice(mig.Groups) || samerow(mig.Groups, old(mig.Groups))
+//@   ensures implies(len(mig.Groups) > 0, freshslice(mig.Groups[len(mig.Groups)-1].List) || (old(len(mig.Groups)) > 0 && samerow(mig.Groups[len(mig.Groups)-1].List, old(mig.Groups[len(mig.Groups)-1].List))))
+//@   ensures mig != nil && inheap(mig.Groups)
+//@   ensures forall(g, 0 <= g && g < len(mig.Groups), mig.Groups[g] != nil)
+//@   ensures forall(g, 0 <= g && g < len(mig.Groups), inheap(mig.Groups[g].List))
+//@   ensures forall(g, 0 <= g && g < len(mig.Groups), disjoint(mig.Groups, mig.Groups[g].List))
+//@   ensures forall(g, 0 <= g && g < len(mig.Groups), forall(j, 0 <= j && j < len(mig.Groups[g].List), mig.Groups[g].List[j] != nil))
+//@   ensures implies(len(mig.Groups) > 0 && len(mig.Groups[len(mig.Groups)-1].List) > 0, mig.prevPageInfo != nil)
+//@   ensures groupsLive(mig)
+
+//@ func (*MonotonicPageInfoGroups).AddNumber(number, url)
+//@   requires groupsLive(mig)
+//@   assigns info.MonotonicPageInfoGroups.*, info.PageInfoGroup.*
+//@   fresh_assigns info.PageInfoGroup.*, info.PageInfo.*
+//@   assigns_rows mig.Groups, mig.Groups[len(mig.Groups)-1].List
+//@   ensures freshslice(mig.Groups) || samerow(mig.Groups, old(mig.Groups))
+//@   ensures implies(len(mig.Groups) > 0, freshslice(mig.Groups[len(mig.Groups)-1].List) || (old(len(mig.Groups)) > 0 && samerow(mig.Groups[len(mig.Groups)-1].List, old(mig.Groups[len(mig.Groups)-1].List))))
+//@   ensures groupsLive(mig)
+
+//@ func (*MonotonicPageInfoGroups).CleanUp()
+//@   requires groupsOK(mig)
+//@   ensures mig != nil && inheap(mig.Groups)
+//@   ensures forall(g, 0 <= g && g < len(mig.Groups), mig.Groups[g] != nil)
+//@   ensures forall(g, 0 <= g && g < len(mig.Groups), inheap(mig.Groups[g].List) && disjoint(mig.Groups, mig.Groups[g].List))
+//@   ensures forall(g, 0 <= g && g < len(mig.Groups), forall(j, 0 <= j && j < len(mig.Groups[g].List), mig.Groups[g].List[j] != nil))
+//@   ensures groupsOK(mig)
+
+// C01: a detected page parameter (paramInfoOK).
+
+//@ func (*PageParamInfo).CompareTo(other)
+//@   requires other != nil
+
+//@ func (*PageParamInfo).CanInsertFirstPage(docURL, ascendingNumbers)
+//@   requires paramInfoOK(pi) && numbersOK(ascendingNumbers)
+//@   assigns nothing
+//@   loop 0 invariant 0 <= i && i <= len(pi.AllPageInfo) && paramInfoOK(pi) && numbersOK(ascendingNumbers)
+//@   loop 0 decreases len(pi.AllPageInfo) - i
+//@   loop 1 invariant numbersOK(ascendingNumbers)
+
+//@ func (*PageParamInfo).InsertFirstPage(docURL)
+//@   requires paramInfoOK(pi)
+//@   ensures paramInfoOK(pi) && len(pi.AllPageInfo) == old(len(pi.AllPageInfo)) + 1
+//@   ensures forall(x[*info.PageParamInfo], implies(x != pi, x.AllPageInfo == old(x.AllPageInfo)))
+
+//@ func (*PageParamInfo).DetermineNextPagingURL(docURL)
+//@   requires paramInfoOK(pi)
+//@   ensures paramInfoOK(pi)
+//@   loop 0 invariant paramInfoOK(pi)
+
+//@ func (*PageParamInfo).String()
+//@   requires paramInfoOK(pi)
+//@   loop 0 invariant paramInfoOK(pi)
